@@ -1,21 +1,62 @@
-"""C19 — results do not depend on the index-width configuration: every C02 case is run by the implementation under 64-bit and
-under 32-bit row indices and the two answers are compared with each other (so a C02 defect common to both is not reported here)."""
+"""C19 — results do not depend on the index-width configuration.
+
+Every case set of C01-C09 (the index grammar of C02 on fresh and derived arrays, the assignments of C03, the dtype-wide operation families
+of C04/C05/C07/C08/C09, the constructors/observers of C01, the programs of C06) is run by the implementation under 64-bit and under 32-bit
+row indices; the two answers (values, row lengths, element dtypes, refusal) are compared with each other, so that a defect common to both
+configurations is reported by the property it belongs to and not here."""
 import os, random
 import vlib
-from harness import c02
-TRUSTED = c02.TRUSTED + ["little-endian layout of an int32 pair inside a uint64 word (Model/IdxWidth.v)"]
-ASSUME = ["arrays small enough for 32-bit offsets", "the reference for a case is the implementation's own answer under the default 64-bit configuration; that answer is compared with the Coq oracle by the C02 check"]
-RULE = "each case twice (np.int64 / np.int32 via ViewBase.set_dtype); " + c02.RULE
-def run(R, tier, rng):
+from harness import c02, fam_ra2
+TRUSTED = [vlib.KERNEL_TB, vlib.AXIOMS_TB, vlib.EXTRACT_TB, "little-endian layout of an int32 pair inside a uint64 word (Model/IdxWidth.v; sys.byteorder checked at start-up)", "this harness"]
+ASSUME = ["arrays small enough for 32-bit offsets", "the reference for a case is the implementation's own answer under the default 64-bit configuration; that answer is "
+          "compared with the Coq oracle / numpy per row by the checks C01-C09"]
+RULE = ("each case twice (np.int64 / np.int32 via ViewBase.set_dtype), same seed: C02 index grammar (" + c02.RULE[:200] + "...), C06 chains and programs, C03 assignments into views, "
+        "and the C01/C04/C05/C07/C08/C09 families on a lighter shape set (<= 3 rows); non-trivial / distinct as in the owning family")
+
+
+class Collect:
+    """stands in for vlib.Run while a family is executed: keeps the implementation's answer per case"""
+    def __init__(self): self.d = {}; self.only = None; self.notes = {}; self.ties = []; self.internal = []; self.violations = []
+    def record(self, case, impl, model, spec, nontrivial=True, kind="case", cls=None, py=None): self.d[case] = (impl, nontrivial, kind, py)
+    def violation(self, case, reason, **kw): self.d[case] = ("harness violation: " + reason[:200], True, "aborted", None)
+
+
+def families(tier, seed):
+    from harness import c01, c06
+    col = Collect()
+    fam_ra2.LIGHT[0] = True
+    try:
+        for f in (fam_ra2.run_c04, fam_ra2.run_c05, fam_ra2.run_c07, fam_ra2.run_c08, fam_ra2.run_c09):
+            f(col, tier, random.Random(seed))
+        c06.run_programs(col, tier, random.Random(seed), light=(tier != "thorough"))
+        c01.run_impl_only(col, tier, random.Random(seed))
+    finally:
+        fam_ra2.LIGHT[0] = False
+    return col.d
+
+
+def one_configuration(args):
+    """executed in its own process: the index width is a process-wide switch"""
+    width, tier, seed = args
     import numpy as np
     from npstructures.raggedshape import ViewBase
+    if width == 32:
+        os.environ["VERIF_IDX32"] = "1"; ViewBase.set_dtype(np.int32)
+    items, lines, impl = c02.collect(tier, random.Random(seed))
+    return items, lines, impl, families(tier, seed)
+
+
+def run(R, tier, rng):
+    import sys, concurrent.futures
+    assert sys.byteorder == "little"
     seed = rng.random()
-    items, lines, impl64 = c02.collect(tier, random.Random(seed))
-    os.environ["VERIF_IDX32"] = "1"; ViewBase.set_dtype(np.int32)
-    try:
-        items32, lines32, impl32 = c02.collect(tier, random.Random(seed))
-    finally:
-        ViewBase.set_dtype(np.int64); os.environ.pop("VERIF_IDX32", None)
+    with concurrent.futures.ProcessPoolExecutor(2) as ex:
+        (items, lines, impl64, fam64), (items32, lines32, impl32, fam32) = list(ex.map(one_configuration, [(64, tier, seed), (32, tier, seed)]))
     assert lines == lines32
     for (Rw, idx), line, i64, i32 in zip(items, lines, impl64, impl32):
-        R.record(line, i32, i64, i64, len(Rw) >= 2 and idx is not Ellipsis, c02.kind_of(idx))
+        R.record(line, i32, i64, i64, len(Rw) >= 2 and idx is not Ellipsis, c02.kind_of(idx), py="RaggedArray(%s)[%r] under ViewBase.set_dtype(np.int32) vs np.int64" % (Rw, idx))
+    for case, (i64, nt, kind, py) in fam64.items():
+        if case not in fam32:
+            R.violation(case, "case missing under the 32-bit configuration"); continue
+        R.record(case, fam32[case][0], i64, i64, nt, "w32/" + kind.split("/")[0], py=(py or case) + "   [ViewBase.set_dtype(np.int32) vs np.int64]")
+    R.notes["cases_per_configuration"] = len(lines) + len(fam64)
